@@ -59,7 +59,8 @@ def emit(vf, exp, path, fr, ind):
     vf.emit(ind + 'pub open spec fn enc(v: DataType) -> Option<Seq<bool>> { if v.satellite_data@.len() == 0 && v.signal_data@.len() == 0 { Some(crate::bits_of_int(0, 64) + crate::bits_of_int(0, 32)) } else { enc_rows(v) } }')
     sp = FnSpec(); sp.ret = 'r'; sp.body_props = P
     sp.attrs = '#[verifier::rlimit(100)]'
-    sp.replace = [(r'\b(asm|par)\.(put|parse)::<(\w+)>\(', r'\1.\2_\3(', 'R6 generic L0 call monomorphised')]
+    sp.replace = [(r'\b(asm|par)\.(put|parse)::<(\w+)>\(', r'\1.\2_\3(', 'R6 generic L0 call monomorphised'),
+                  (r'(\bvalue\.\w+)\.is_empty\(\)', r'(\1.len() == 0)', 'R6-opt RX <[T]>::is_empty() reached through Deref of DataVec is `len() == 0`')]
     sp.slice_map = {'value.satellite_data': 'value.satellite_data.as_slice()', 'value.signal_data': 'value.signal_data.as_slice()', 'cell_vec': 'cell_vec.as_slice()'}
     sp.requires = [('l2.%s.encode.pre' % pid, set(), 'old(asm).cap() <= 0x100_0000_0000')]
     names = ['frame', 'accepts_only_valid', 'masks_follow_standard', 'err.invalid_satellite', 'err.invalid_signal', 'err.duplicate_satellite',
